@@ -52,6 +52,9 @@ class AsmGen(object):
             return "%s %s" % (r.choice(["INC", "DEC", "NOT", "NEG"]), d)
         if c < 0.74:
             return "LEA %s, DWORD PTR [%s+%s*%d+0x%X]" % (d, self.reg(), self.reg(), r.choice([1, 2, 4]), r.choice([0, 4, 0x10]))
+        if c < 0.77:
+            # a load through a register pointer (the register may be redefined later)
+            return "MOV %s, DWORD PTR [%s+0x%X]" % (d, self.reg(), r.choice([0, 4, 8]))
         if c < 0.84:
             return "MOV %s, %s" % (d, self.mem())
         if c < 0.92:
@@ -120,6 +123,23 @@ class AsmGen(object):
             self.lines.append("    JNZ %s" % top)
         elif self.split:
             self.straight(r.randrange(1, 3), avoid)
+        elif c < 0.95:
+            # mixed-width overlap on one cell: wide store (or load), narrower store inside it, wide reload / use
+            cell = r.choice(["ESP+0x10", "ESP+0x18", "0x2000"])
+            base = int(cell.split("+")[1], 16) if "+" in cell else int(cell, 16)
+            pre = "ESP+" if "+" in cell else ""
+            a, b = self.reg(avoid), self.reg(avoid)
+            k = r.choice([1, 2, 3])
+            narrow = ("BYTE", REG8[r.choice(sorted(REG8))]) if k != 2 or r.random() < 0.5 else ("WORD", REG16[r.choice(sorted(REG16))])
+            if r.random() < 0.5:
+                self.lines.append("    MOV DWORD PTR [%s0x%X], %s" % (pre, base, a))
+            else:
+                self.lines.append("    MOV %s, DWORD PTR [%s0x%X]" % (a, pre, base))
+            self.lines.append("    MOV %s PTR [%s0x%X], %s" % (narrow[0], pre, base + k, narrow[1]))
+            if r.random() < 0.6:
+                self.lines.append("    MOV %s, DWORD PTR [%s0x%X]" % (b, pre, base))
+            else:
+                self.lines.append("    MOV DWORD PTR [%s0x%X], %s" % (pre, base + 8, a))
         else:
             a = self.reg(avoid)
             self.lines.append("    PUSH %s" % a)
